@@ -464,7 +464,11 @@ class _Exporter:
                 text += ")"
                 attributes.append((at.name, text))
                 continue
-            attributes.append((at.name, repr(value)))
+            text = repr(value)
+            if at.type in (onnx.AttributeProto.FLOAT, onnx.AttributeProto.FLOATS):
+                # "nan" and "inf" are not Python literals
+                text = text.replace("nan", "np.nan").replace("inf", "np.inf")
+            attributes.append((at.name, text))
 
         return ", ".join(f"{k}={v}" for k, v in attributes)
 
